@@ -80,8 +80,8 @@ def _promax(
     L = L @ np.sqrt(sigma_inv)
     Xrot = X @ L
 
-    # Post-normalization based on Kaiser
-    Xrot = h[:, np.newaxis] * Xrot
+    # Post-normalization based on Kaiser: undo exactly the pre-normalization
+    Xrot = (h + eps)[:, np.newaxis] * Xrot
 
     rot_mat = rot_mat @ L
 
@@ -179,8 +179,8 @@ def _varimax(
     if compute and (abs(delta - delta_old) / delta) > rtol:
         raise RuntimeError("Rotation process did not converge.")
 
-    # De-normalize
-    X = h[:, np.newaxis] * X
+    # De-normalize: undo exactly the normalization applied above
+    X = (h + eps)[:, np.newaxis] * X
 
     # Rotate
     Xrot = X @ R
